@@ -252,10 +252,20 @@ Definition ensure_group (c : cfg) (t : Z) (gid : N) (shards : list shard) (alive
 
 (* ------------------------------------------------------------------ several measurements, shard-key history, batches *)
 (* a measurement: its configuration (c_sk is a placeholder) and MeasurementInfo.ShardKeys as (ShardGroup threshold, key) *)
-Record mcfg := { m_cfg : cfg; m_vers : list (N * list str) }.
+Record mcfg := {
+  m_cfg : cfg; m_vers : list (N * list str);
+  m_db : list str     (* DatabaseInfo.ShardKey.ShardKey of the measurement's database, [] = the database has no shard key.
+                         CREATE DATABASE .. WITH SHARDKEY stores the tag list without a sharding type, and both the write
+                         path and TargetShards treat every type other than "range" as hashing *)
+}.
 Definition set_sk (c : cfg) (sk : list str) : cfg :=
   {| c_mst := c_mst c; c_tagkeys := c_tagkeys c; c_sk := sk; c_typ := c_typ c; c_dur := c_dur c;
      c_groups := c_groups c; c_mstidx := c_mstidx c |}.
+Definition set_typ (c : cfg) (t : shtype) : cfg :=
+  {| c_mst := c_mst c; c_tagkeys := c_tagkeys c; c_sk := c_sk c; c_typ := t; c_dur := c_dur c;
+     c_groups := c_groups c; c_mstidx := c_mstidx c |}.
+(* the measurement's configuration with the sharding type in force: a database-level key is always hashed *)
+Definition base_cfg (m : mcfg) : cfg := match m_db m with [] => m_cfg m | _ :: _ => set_typ (m_cfg m) Hash end.
 (* GetShardKey(group id): the last entry whose threshold is <= the id *)
 Fixpoint sk_scan (vs : list (N * list str)) (gid : N) : option (list str) :=
   match vs with
@@ -265,9 +275,26 @@ Fixpoint sk_scan (vs : list (N * list str)) (gid : N) : option (list str) :=
                       | None => if N.leb thr gid then Some sk else None
                       end
   end.
-(* configuration in force for a group; no entry = nil ShardKeyInfo: the read path consults every shard *)
-Definition cfg_at (m : mcfg) (gid : N) : cfg :=
-  set_sk (m_cfg m) (match sk_scan (m_vers m) gid with Some sk => sk | None => [] end).
+(* WRITE side, points_writer.go updateShardGroupAndShardKey (and stream.go):
+     if len(di.ShardKey.ShardKey) > 0 { si = &di.ShardKey } else { si = mi.GetShardKey(sg.ID) } *)
+Definition wkey_in_force (m : mcfg) (gid : N) : option (list str) :=
+  match m_db m with _ :: _ => Some (m_db m) | [] => sk_scan (m_vers m) gid end.
+(* READ side, shard_mapper.go: getTargetShardMsg sets shardKeyInfo = &dbi.ShardKey iff len(dbi.ShardKey.ShardKey) > 0, once
+   per query; mapMstShards, per group: groupShardKeyInfo := shardKeyInfo; if nil, measurements[0].GetShardKey(group id) *)
+Definition db_key_read (m : mcfg) : option (list str) := if (0 <? length (m_db m))%nat then Some (m_db m) else None.
+Definition rkey_in_force (m : mcfg) (gid : N) : option (list str) :=
+  match db_key_read m with Some k => Some k | None => sk_scan (m_vers m) gid end.
+(* the other precedence ("the more specific definition wins": the measurement's own key, the database's only when the
+   measurement has none) - NOT what the write side does; refuted in Refuted.v *)
+Definition rkey_mst_first (m : mcfg) (gid : N) : option (list str) :=
+  match sk_scan (m_vers m) gid with
+  | Some (k :: r) => Some (k :: r)
+  | o => match db_key_read m with Some k => Some k | None => o end
+  end.
+(* configuration in force for a group on the read side; no entry = nil ShardKeyInfo: the read path consults every shard *)
+Definition cfg_with (m : mcfg) (k : option (list str)) : cfg :=
+  set_sk (base_cfg m) (match k with Some sk => sk | None => [] end).
+Definition cfg_at (m : mcfg) (gid : N) : cfg := cfg_with m (rkey_in_force m gid).
 
 (* routeAndMapOriginRows: one ingestion context per batch remembers the previous row's shard group (preSg), the
    previous row's measurement (preMst / sameMst) and the shard-key definition last looked up (ctx.shardKeyInfo), which is
@@ -283,7 +310,7 @@ Definition b_empty : bstate := {| b_sg := None; b_mst := None; b_sk := None; b_a
 
 (* use_cache = true: today's code; false: the shard key is looked up for every row *)
 Definition batch_step (use_cache : bool) (st : bstate) (r : brow) : bstate * option (group * shard) :=
-  let c0 := m_cfg (r_m r) in
+  let c0 := base_cfg (r_m r) in
   let same_mst := match b_mst st with Some n => str_eqb n (c_mst c0) | None => false end in
   match r_kind r with
   | RSkip => (st, None)
@@ -297,7 +324,7 @@ Definition batch_step (use_cache : bool) (st : bstate) (r : brow) : bstate * opt
       | None => ({| b_sg := None; b_mst := Some (c_mst c0); b_sk := b_sk st; b_asis := b_asis st |}, None)
           (* no group: the real loop returns the error and the batch ends; the model goes on without a cached group *)
       | Some g =>
-          let sk := if use_cache && same_sg && same_mst then b_sk st else sk_scan (m_vers (r_m r)) (g_id g) in
+          let sk := if use_cache && same_sg && same_mst then b_sk st else wkey_in_force (r_m r) (g_id g) in
           match sk with
           | None => ({| b_sg := Some g; b_mst := Some (c_mst c0); b_sk := None; b_asis := b_asis st |}, None)
           | Some k =>
@@ -388,6 +415,12 @@ Definition target_m (v : variant) (per_group_key : bool) (m : mcfg) (tmin tmax :
   flat_map (fun g =>
               let gid := if per_group_key then g_id g else match qs with g0 :: _ => g_id g0 | [] => g_id g end in
               map (fun s => (g_id g, s_id s)) (target_group v (cfg_at m gid) g cond)) qs.
+
+(* mapMstShards with an arbitrary rule for the key in force (per group): rkey_in_force is today's code *)
+Definition target_m_by (keyf : mcfg -> N -> option (list str)) (v : variant) (m : mcfg) (tmin tmax : Z) (cond : option expr)
+  : list (N * N) :=
+  flat_map (fun g => map (fun s => (g_id g, s_id s)) (target_group v (cfg_with m (keyf m (g_id g))) g cond))
+           (query_groups (m_cfg m) tmin tmax).
 
 Definition consulted (v : variant) (c : cfg) (tmin tmax : Z) (cond : option expr) (gs : group * shard) : bool :=
   existsb (fun x => N.eqb (fst x) (g_id (fst gs)) && N.eqb (snd x) (s_id (snd gs))) (target v c tmin tmax cond).
